@@ -23,6 +23,7 @@ mod c18;
 mod c19;
 mod c20;
 mod life;
+mod md;
 mod util;
 
 use util::*;
@@ -64,6 +65,7 @@ fn main() {
         "C19" => c19::replay(&cases, &mut rep),
         "C20" => c20::replay(&cases, &mut rep),
         "LIFE" => life::replay(&cases, &mut rep),
+        "MD" => md::replay(&cases, &mut rep),
         p => tool_error(&format!("no replay driver for {p}")),
       }
       rep.write(&args[4]);
